@@ -47,9 +47,10 @@ Definition decode_timeout (s : bytes) : option Z :=
        end.
 
 (* executable judgement of what the implementation did with a timeout string:
-   refused = handler not invoked; otherwise the deadline observed lies between lo and hi ns *)
+   refused = handler not invoked; otherwise the deadline observed lies between lo and hi ns (beyond
+   2^62 ns Go's time arithmetic saturates: there the time left must still be at least 2^61 ns) *)
 Definition timeout_obs_ok (s : bytes) (refused : bool) (lo hi : Z) : bool :=
   match decode_timeout s with
   | None => refused
-  | Some ns => negb refused && (lo <=? ns) && ((ns <=? hi) || (2 ^ 62 <=? ns))
+  | Some ns => negb refused && (lo <=? ns) && ((ns <=? hi) || ((2 ^ 62 <=? ns) && (2 ^ 61 <=? lo)))
   end.
